@@ -507,7 +507,7 @@ def _direct_stream(arg: dict) -> dict:
     return {"status": "ok", "tap": out, "fs_permuted": sm.fs_permuted}
 
 
-def run_cli(arg: dict, fn=_cli, wall=180) -> dict:
+def run_cli(arg: dict, fn=_cli, wall=600) -> dict:
     try:
         st, val = core.run_forked(fn, arg, wall_limit=wall)
     except core.ChildTimeout:
@@ -936,7 +936,7 @@ CHILD = {"c14": _child_c14, "c15": _child_c15}
 def run_unit(unit: dict) -> dict:
     try:
         st, val = core.run_forked(CHILD[unit["kind"]], unit,
-                                  wall_limit=unit.get("wall", 600))
+                                  wall_limit=unit.get("wall", 2400))
     except core.ChildTimeout:
         return {"status": "harness-timeout"}
     if st == "ok":
